@@ -9,6 +9,7 @@ use serde_json::json;
 use std::time::Duration;
 mod qfull;
 mod runall;
+mod runmore;
 mod runpair;
 
 pub fn run(rep: &mut Report) {
@@ -204,6 +205,7 @@ pub fn run(rep: &mut Report) {
     capacity_cases(rep, &mut rng);
     runpair::run(rep);
     runall::run(rep);
+    runmore::run(rep);
 }
 
 /// Unit-style negative tests of the trace validator on REAL logs: the accepted request of a run is
@@ -368,6 +370,7 @@ fn capacity_cases(rep: &mut Report, rng: &mut Rng) {
 }
 
 pub fn replay(rep: &mut Report, case: &serde_json::Value) {
+    if runmore::replay(rep, case) { return; }
     if runall::replay(rep, case) { return; }
     if runpair::replay(rep, case) { return; }
     if qfull::replay(rep, case) { return; }
